@@ -339,14 +339,25 @@ func c08History(d c08Desc, seed int64, dir string, res *c08Result) ([]c08Op, []c
 	switch d.Kind {
 	case "blockstore":
 		p := filepath.Join(dir, fmt.Sprintf("h%d.car", seed))
-		f, err := os.OpenFile(p, os.O_RDWR|os.O_CREATE|os.O_TRUNC, 0o666)
-		if err != nil {
-			panic(err)
+		var bs *blockstore.ReadWrite
+		var err error
+		if seed%2 == 0 {
+			// the store opens (and owns, and closes) the file itself: the tap is attached by name
+			os.Remove(p)
+			tap := iofault.TapPath(p)
+			tap.Yield = yield
+			defer func() { iofault.UntapPath(p); os.Remove(p) }()
+			bs, err = blockstore.OpenReadWrite(p, roots, d.Cfg.Opts()...)
+		} else {
+			f, ferr := os.OpenFile(p, os.O_RDWR|os.O_CREATE|os.O_TRUNC, 0o666)
+			if ferr != nil {
+				panic(ferr)
+			}
+			tap := iofault.Tap(f)
+			tap.Yield = yield
+			defer func() { iofault.Untap(f); f.Close(); os.Remove(p) }()
+			bs, err = blockstore.OpenReadWriteFile(f, roots, d.Cfg.Opts()...)
 		}
-		tap := iofault.Tap(f)
-		tap.Yield = yield
-		defer func() { iofault.Untap(f); f.Close(); os.Remove(p) }()
-		bs, err := blockstore.OpenReadWriteFile(f, roots, d.Cfg.Opts()...)
 		if err != nil {
 			addV("open/error", err.Error(), nil)
 			return nil, viols, nil
@@ -382,6 +393,10 @@ func c08History(d c08Desc, seed int64, dir string, res *c08Result) ([]c08Op, []c
 	withFinalize := r.Intn(3) != 0
 	finalizer := r.Intn(G)
 	finalizeAt := r.Intn(opsPer)
+	// blockstore variant: the terminal operation is split — one client calls FinalizeReadOnly while a
+	// separate goroutine keeps calling Close until it is accepted (Close is refused before finalization)
+	bsStore, _ := st.(*c08BS)
+	roClose := bsStore != nil && withFinalize && r.Intn(2) == 0
 	var clock int64
 	perClient := make([][]c08Op, G)
 	var wg sync.WaitGroup
@@ -468,7 +483,12 @@ func c08History(d c08Desc, seed int64, dir string, res *c08Result) ([]c08Op, []c
 					err = st.roots()
 					op.Out = "ok"
 				case "finalize":
-					err = st.finalize()
+					if roClose {
+						op.Kind = "finalize-ro"
+						err = bsStore.bs.FinalizeReadOnly()
+					} else {
+						err = st.finalize()
+					}
 					op.Out = "ok"
 				}
 				op.Ret = atomic.AddInt64(&clock, 1)
@@ -486,9 +506,71 @@ func c08History(d c08Desc, seed int64, dir string, res *c08Result) ([]c08Op, []c
 			}
 		}(g, cr)
 	}
+	var closerOps []c08Op
+	stopCloser := make(chan struct{})
+	closerDone := make(chan struct{})
+	if roClose {
+		go func() {
+			defer close(closerDone)
+			<-start
+			for {
+				call := atomic.AddInt64(&clock, 1)
+				err := bsStore.bs.Close()
+				ret := atomic.AddInt64(&clock, 1)
+				if err == nil {
+					closerOps = append(closerOps, c08Op{Client: G, Kind: "finalize", Key: -1, Key2: -1, Call: call, Ret: ret, Out: "ok"})
+					atomic.AddInt64(&c08Progress, 1)
+					return
+				}
+				select {
+				case <-stopCloser:
+					return
+				default:
+					runtime.Gosched()
+				}
+			}
+		}()
+	} else {
+		close(closerDone)
+	}
+	// one more client that only ever asks for the roots (a call that takes no lock of its own): whatever
+	// a terminal operation does to the store's reader, it must not race with it
+	var rootsOps []c08Op
+	rootsDone := make(chan struct{})
+	go func() {
+		defer close(rootsDone)
+		<-start
+		for i := 0; i < 6; i++ {
+			op := c08Op{Client: G + 1, Kind: "roots", Key: -1, Key2: -1, Out: "ok"}
+			op.Call = atomic.AddInt64(&clock, 1)
+			err := st.roots()
+			op.Ret = atomic.AddInt64(&clock, 1)
+			if err != nil {
+				if isClosedErr(err) || strings.Contains(err.Error(), "closed") {
+					op.Out = "closed"
+				} else {
+					op.Out = "err:" + err.Error()
+				}
+			}
+			rootsOps = append(rootsOps, op)
+			runtime.Gosched()
+		}
+	}()
 	close(start)
 	wg.Wait()
+	<-rootsDone
+	close(stopCloser)
+	<-closerDone
+	if roClose && len(closerOps) == 0 {
+		// every client is done: now Close must be accepted (the store was finalized) — or nothing was finalized
+		call := atomic.AddInt64(&clock, 1)
+		if err := bsStore.bs.Close(); err == nil {
+			closerOps = append(closerOps, c08Op{Client: G, Kind: "finalize", Key: -1, Key2: -1, Call: call, Ret: atomic.AddInt64(&clock, 1), Out: "ok"})
+		}
+	}
 	var ops []c08Op
+	ops = append(ops, closerOps...)
+	ops = append(ops, rootsOps...)
 	for _, l := range perClient {
 		ops = append(ops, l...)
 	}
@@ -516,6 +598,12 @@ func c08History(d c08Desc, seed int64, dir string, res *c08Result) ([]c08Op, []c
 			fin = &ops[i]
 		}
 	}
+	var finRO *c08Op
+	for i := range ops {
+		if ops[i].Kind == "finalize-ro" {
+			finRO = &ops[i]
+		}
+	}
 	for _, o := range ops {
 		if o.Kind == "finalize" {
 			if o.Out != "ok" {
@@ -523,11 +611,27 @@ func c08History(d c08Desc, seed int64, dir string, res *c08Result) ([]c08Op, []c
 			}
 			continue
 		}
+		if o.Kind == "finalize-ro" {
+			if o.Out != "ok" {
+				addV("FinalizeReadOnly/error", "FinalizeReadOnly racing with Close and other operations failed: "+o.Out, nil)
+			}
+			continue
+		}
+		if finRO != nil && (o.Kind == "put" || o.Kind == "putmany") && o.Call > finRO.Ret && o.Out == "ok" {
+			addV(o.Kind+"/succeeded-after-FinalizeReadOnly", fmt.Sprintf("%s was invoked after FinalizeReadOnly had returned and still succeeded", o.Kind), o)
+		}
 		switch {
 		case strings.HasPrefix(o.Out, "err:"):
 			addV(o.Kind+"/unexpected-error", fmt.Sprintf("%s returned %s", o.Kind, o.Out), nil)
 		case o.Out == "closed":
-			if fin == nil || o.Ret < fin.Call {
+			firstTerminal := int64(1) << 62
+			if fin != nil {
+				firstTerminal = fin.Call
+			}
+			if finRO != nil && finRO.Call < firstTerminal {
+				firstTerminal = finRO.Call
+			}
+			if o.Ret < firstTerminal {
 				addV(o.Kind+"/closed-error-before-finalize", fmt.Sprintf("%s failed with a closed/finalized error although no terminal operation had been invoked before it returned", o.Kind), o)
 			}
 		case o.Out == "cancelled":
